@@ -1331,3 +1331,74 @@ func vH_C17_tree(d []byte, shape int) {
 	vMutate(got)
 	vAssert(vTreeEq(arg, pristine), "C17.tree-result-independent")
 }
+
+// ---- C20 ---------------------------------------------------------------
+// Marginal-cost obligations. Two documents that differ by one extra member (or one extra
+// nesting level, or one extra escape) are decoded from the same arbitrary reader state (size
+// hints a history may have left behind are free variables, the same for both runs); the extra
+// member may cost at most vC20A bytes per byte it adds plus vC20B. A member whose cost is
+// proportional to a hint, to the unread remainder of the document or to what was decoded before
+// it makes the total super-linear when repeated; that is what this rejects.
+const (
+	vC20A = 1536
+	vC20B = 4096
+)
+
+func vHint(name string) int {
+	h := vNondetInt(name)
+	vAssume(h >= 0 && h <= 1<<20)
+	return h
+}
+
+type vHints struct{ a, b, c, d, e, f int }
+
+func vNewHints() vHints {
+	return vHints{vHint("lastMap"), vHint("maxMap"), vHint("lastSlice"), vHint("childLastMap"), vHint("childMaxMap"), vHint("childLastSlice")}
+}
+
+// a reader in the state some history left it in: hints on the reader and on a pooled child
+func vHintedReader(h vHints) (*ValueReader, *ValueReader) {
+	r := &ValueReader{lastMapSize: h.a, maxMapSize: h.b, lastSliceSize: h.c}
+	child := &ValueReader{lastMapSize: h.d, maxMapSize: h.e, lastSliceSize: h.f}
+	r.pool.Put(child)
+	return r, child
+}
+
+// what the size hints still held by the readers entitle later calls to allocate
+func vPotential(r, child *ValueReader) int {
+	return 48*(r.lastMapSize+r.maxMapSize+child.lastMapSize+child.maxMapSize) + 16*(r.lastSliceSize+child.lastSliceSize)
+}
+
+// bytes allocated by one call plus the potential it leaves behind: a call may spend a hint an
+// earlier call left (once), and has to account for the hints it leaves
+func vC20Cost(which int, h vHints, doc []byte) int {
+	r, child := vHintedReader(h)
+	vCostReset()
+	switch which {
+	case 0:
+		r.ReadValue(doc)
+	case 1:
+		r.ReadObject(doc)
+	case 2:
+		r.ReadArray(doc)
+	case 3:
+		ReadStringBytes(doc, nil)
+	case 4:
+		SkipValue(doc, nil)
+	case 5:
+		var hh vHandler
+		hh.mode = 4
+		HandleArrayValues(doc, &hh, nil)
+	default:
+		Valid(doc, &Buffer{})
+	}
+	return vCostBytes() + vPotential(r, child)
+}
+
+func vH_C20(small []byte, big []byte, which int) {
+	h := vNewHints()
+	c1 := vC20Cost(which, h, small)
+	c2 := vC20Cost(which, h, big)
+	vReach("C20.marginal")
+	vAssertCost(c2-c1 <= vC20A*(len(big)-len(small))+vC20B, "C20.marginal-cost-linear")
+}
